@@ -11,19 +11,19 @@ Lemma labels : L_KTY = 1 /\ L_ALG = 3 /\ L_CRV = -1 /\ L_X = -2 /\ L_Y = -3 /\ L
                KTY_OKP = 1 /\ KTY_EC2 = 2 /\ KTY_RSA = 3.
 Proof. vm_compute. repeat split. Qed.
 
-Lemma wf_ec2 alg crv x y : small alg -> small crv -> len x < 2 ^ 64 -> len y < 2 ^ 64 -> wf (cose_ec2 alg crv x y).
+Lemma wf_ec2 alg crv x y : small alg -> small crv -> len x < 2 ^ 64 -> len y < 2 ^ 64 -> wfd (cose_ec2 alg crv x y).
 Proof.
-  intros Ha Hc Hx Hy. unfold cose_ec2, small in *. apply wf_map. split; [unfold len; cbn; lia|].
+  intros Ha Hc Hx Hy. split; [|cbn; unfold max_depth; lia]. unfold cose_ec2, small in *. apply wf_map. split; [unfold len; cbn; lia|].
   cbn [wf_pairs key_ok forallb app wf key_eqb negb andb Z.eqb Pos.eqb]. repeat split; auto; lia.
 Qed.
-Lemma wf_okp alg crv x : small alg -> small crv -> len x < 2 ^ 64 -> wf (cose_okp alg crv x).
+Lemma wf_okp alg crv x : small alg -> small crv -> len x < 2 ^ 64 -> wfd (cose_okp alg crv x).
 Proof.
-  intros Ha Hc Hx. unfold cose_okp, small in *. apply wf_map. split; [unfold len; cbn; lia|].
+  intros Ha Hc Hx. split; [|cbn; unfold max_depth; lia]. unfold cose_okp, small in *. apply wf_map. split; [unfold len; cbn; lia|].
   cbn [wf_pairs key_ok forallb app wf key_eqb negb andb Z.eqb Pos.eqb]. repeat split; auto; lia.
 Qed.
-Lemma wf_rsa alg n e : small alg -> len n < 2 ^ 64 -> len e < 2 ^ 64 -> wf (cose_rsa alg n e).
+Lemma wf_rsa alg n e : small alg -> len n < 2 ^ 64 -> len e < 2 ^ 64 -> wfd (cose_rsa alg n e).
 Proof.
-  intros Ha Hn He. unfold cose_rsa, small in *. apply wf_map. split; [unfold len; cbn; lia|].
+  intros Ha Hn He. split; [|cbn; unfold max_depth; lia]. unfold cose_rsa, small in *. apply wf_map. split; [unfold len; cbn; lia|].
   cbn [wf_pairs key_ok forallb app wf key_eqb negb andb Z.eqb Pos.eqb]. repeat split; auto; lia.
 Qed.
 
